@@ -292,7 +292,14 @@ func oracleClosed(c ClosedCase, o *h.Obs) *h.Fail {
 			o.Class("closed_op_" + l)
 		}
 	}
+	// half of the programs (by their text) run under context.Background(), like vm.Execute does
+	bg := len(src)%2 == 0
+	if bg {
+		o.Class("closed_run_under_background_context")
+	}
+	backgroundRun = bg
 	r := runOnce(src, runDeadline, 64)
+	backgroundRun = false
 	switch {
 	case r.hostPanic != "":
 		return h.Failf("C16|host-panic|closed|"+r.hostPanicNorm, "a Go panic escaped into the host\nsource:\n%s\npanic: %s", src, r.hostPanic)
